@@ -37,7 +37,7 @@ theorem capPC_afterSub (m : MCtx) (ws ns) : capPC (afterSub m ws ns) = false := 
   unfold afterSub; split <;> first | exact capPC_nextAdmit _ _ | rfl
 theorem capPC_afterVictim (m : MCtx) (ws vs tot ns) : capPC (afterVictim m ws vs tot ns) = false := by
   unfold afterVictim; split <;> rfl
-theorem capPC_startPC (op : Op) : capPC (startPC op) = false := by cases op <;> rfl
+theorem capPC_startPC (c : Cfg) (n : Nat) (op : Op) : capPC (startPC c n op) = false := by cases op <;> rfl
 
 syntax "invu_step " ident ident ident : tactic
 macro_rules | `(tactic| invu_step $hi $h $f) => `(tactic|
@@ -51,12 +51,13 @@ macro_rules | `(tactic| invu_step $hi $h $f) => `(tactic|
      | exact invU_frame $hi _ _ rfl (capPC_startDrain _ _) rfl
      | exact invU_frame $hi _ _ rfl (capPC_afterSub _ _ _) rfl
      | exact invU_frame $hi _ _ rfl (capPC_afterVictim _ _ _ _ _) rfl
-     | exact invU_frame $hi _ _ rfl (capPC_startPC _) rfl))
+     | exact invU_frame $hi _ _ rfl (capPC_startPC _ _ _) rfl))
 
 theorem invU_step {c : Cfg} (hc : 18446744073709551615 ≤ c.capacity) {s s' : State} {t : Nat} {l : Label}
     (hi : InvU s) (h : step c s t l = some s') : InvU s' := by
   cases l <;> simp only [step] at h
   case call op => invu_step hi h stepCall
+  case advance d => simp at h; subst h; exact ⟨hi.nocap, hi.clean⟩
   case read => invu_step hi h stepRead
   case insMap => invu_step hi h stepInsMap
   case insSub => invu_step hi h stepInsSub
@@ -81,6 +82,7 @@ theorem invU_step {c : Cfg} (hc : 18446744073709551615 ≤ c.capacity) {s s' : S
   case evNote sent => invu_step hi h stepEvNote
   case ttlAdvance e => invu_step hi h stepTtlAdvance
   case ttlMap sent => invu_step hi h stepTtlMap
+  case ttiMap vs sent => invu_step hi h stepTtiMap
   case capLoad =>
     unfold stepCapLoad at h
     split at h
